@@ -285,6 +285,8 @@ type TLG struct {
 
 	ret        map[*ssa.Function][]AV
 	retOK      map[*ssa.Function][]AV // results on the exits whose error result may be nil
+	lenParams  map[any][]int
+	paramPost  map[*ssa.Function][]AV // what is known of each integer parameter when the function returns normally
 	paramT     map[*ssa.Function][]AV
 	fieldT     map[*types.Var]string // integer field -> source description
 	fieldElemT map[*types.Var]string
@@ -305,7 +307,7 @@ func (c *Ctx) TLG() *TLG {
 	if c.tlg != nil {
 		return c.tlg
 	}
-	t := &TLG{c: c, ret: map[*ssa.Function][]AV{}, retOK: map[*ssa.Function][]AV{}, paramT: map[*ssa.Function][]AV{}, fieldT: map[*types.Var]string{},
+	t := &TLG{c: c, ret: map[*ssa.Function][]AV{}, retOK: map[*ssa.Function][]AV{}, paramPost: map[*ssa.Function][]AV{}, paramT: map[*ssa.Function][]AV{}, fieldT: map[*types.Var]string{},
 		fieldElemT: map[*types.Var]string{}, Sources: map[string]int{}, pure: map[*ssa.Function]bool{}}
 	for _, f := range c.Funcs() {
 		if inPkgs(f, "data/...", "level/block", "level/biome", "level/item", "level/entity") {
@@ -364,7 +366,7 @@ func (t *TLG) pureFn(fn *ssa.Function, depth int) bool {
 				if _, local := x.Addr.(*ssa.Alloc); !local {
 					res = false
 				}
-			case *ssa.MapUpdate, *ssa.Send, *ssa.Go, *ssa.Defer, *ssa.Panic:
+			case *ssa.MapUpdate, *ssa.Send, *ssa.Go, *ssa.Defer:
 				res = false
 			case *ssa.Call:
 				cc := x.Common()
@@ -405,6 +407,8 @@ type fnAn struct {
 	sinks map[ssa.Instruction]map[string]*Sink // dedupe across re-visits: keyed by instr+kind
 	retAV []AV
 	retOK []AV
+	post  []AV
+	nRet  int
 	feas  map[*ssa.BasicBlock]map[int]bool // predecessor edges over which a state has arrived
 	vals  map[string]ssa.Value // name -> value for V: entries
 	// per block transient
@@ -607,6 +611,22 @@ func (t *TLG) analyze(fn *ssa.Function) {
 	}
 	mergeSum(t.ret, a.retAV)
 	mergeSum(t.retOK, a.retOK)
+	if a.post != nil {
+		// (symbolic bounds are kept: they are translated into the caller's names at the call site)
+		old, ok := t.paramPost[fn]
+		if !ok || len(old) != len(a.post) {
+			t.paramPost[fn] = a.post
+			t.changed = true
+		} else {
+			for i := range old {
+				j := joinAV(old[i], a.post[i])
+				if !j.eq(old[i]) {
+					old[i] = j
+					t.changed = true
+				}
+			}
+		}
+	}
 }
 
 func predIndex(b, pred *ssa.BasicBlock) int {
@@ -1590,6 +1610,32 @@ func (a *fnAn) instr(in ssa.Instruction, st tstate, collect bool) {
 					a.assign(st, ms.Len, lav, x.Block())
 				}
 			}
+			// *loc = helper(..., n, ...) where the helper returns a slice of length n on every path
+			// (make([]T, n) or s[:n]): afterwards n <= len(loc)
+			if !elem {
+				var hc *ssa.Call
+				ridx := 0
+				switch r := base.(type) {
+				case *ssa.Call:
+					hc = r
+				case *ssa.Extract:
+					if c2, ok := r.Tuple.(*ssa.Call); ok {
+						hc, ridx = c2, r.Index
+					}
+				}
+				if hc != nil {
+					if sc := hc.Common().StaticCallee(); sc != nil && a.t.c.P.InModule(sc) {
+						for _, j := range a.t.sliceLenParams(core.Origin(sc), ridx) {
+							if j < len(hc.Common().Args) && isIntegerType(hc.Common().Args[j].Type(), a.sizes) {
+								n := hc.Common().Args[j]
+								nav := a.eval(n, st)
+								nav.UB = normUB(append(append([]Sym(nil), nav.UB...), Sym{'c', key, 0, false}, Sym{'l', key, 0, false}))
+								a.assign(st, n, nav, x.Block())
+							}
+						}
+					}
+				}
+			}
 			// loc = loc[:h] (re-slice of the same storage): afterwards h <= len(loc)
 			if sl, ok := base.(*ssa.Slice); ok && !elem && sl.High != nil && sl.Low == nil && a.sliceKey(sl.X) == key && isIntegerType(sl.High.Type(), a.sizes) {
 				hav := a.eval(sl.High, st)
@@ -1647,6 +1693,31 @@ func (a *fnAn) instr(in ssa.Instruction, st tstate, collect bool) {
 			}
 		}
 	case *ssa.Return:
+		if len(a.fn.Params) > 0 {
+			if a.post == nil {
+				a.post = make([]AV, len(a.fn.Params))
+			}
+			for i, p := range a.fn.Params {
+				if !isIntegerType(p.Type(), a.sizes) {
+					continue
+				}
+				av := a.eval(p, st)
+				// only symbols over what the parameters point to make sense to a caller
+				var keep []Sym
+				for _, u := range av.UB {
+					if strings.HasPrefix(u.Key, "p:") || strings.HasPrefix(u.Key, "g:") {
+						keep = append(keep, u)
+					}
+				}
+				av.UB = keep
+				if a.nRet == 0 {
+					a.post[i] = av
+				} else {
+					a.post[i] = joinAV(a.post[i], av)
+				}
+			}
+			a.nRet++
+		}
 		if len(x.Results) > 0 {
 			if a.retAV == nil {
 				a.retAV = make([]AV, len(x.Results))
@@ -1788,6 +1859,98 @@ func (a *fnAn) addrArgs(cc *ssa.CallCommon) []ssa.Value {
 }
 
 func (a *fnAn) call(in ssa.Instruction, cc *ssa.CallCommon, st tstate, collect bool) {
+	a.callInner(in, cc, st, collect)
+	a.applyParamPost(in, cc, st)
+}
+
+// applyParamPost: after a call of a module function has returned, its integer
+// arguments satisfy what the callee is known to have established about the
+// corresponding parameters on every normal return (a checking helper that
+// panics or loops otherwise: checkIndex(i)). Symbolic bounds over the callee's
+// pointer parameters are renamed to the caller's arguments.
+func (a *fnAn) applyParamPost(in ssa.Instruction, cc *ssa.CallCommon, st tstate) {
+	if _, isCall := in.(*ssa.Call); !isCall {
+		return
+	}
+	sc := cc.StaticCallee()
+	if sc == nil {
+		return
+	}
+	g := core.Origin(sc)
+	post, ok := a.t.paramPost[g]
+	if !ok || len(post) != len(cc.Args) || len(g.Params) != len(cc.Args) {
+		return
+	}
+	for i, p := range post {
+		arg := cc.Args[i]
+		if !isIntegerType(arg.Type(), a.sizes) {
+			continue
+		}
+		if _, isConst := arg.(*ssa.Const); isConst {
+			continue
+		}
+		cur := a.eval(arg, st)
+		nw := cur
+		changed := false
+		if all := p.all(); all != nil {
+			t2, p2 := meet(cur.T, all), meet(cur.P, all)
+			if (cur.T != nil && t2 == nil) && (cur.P == nil || p2 == nil) {
+				continue // the callee never returns with such a value: leave the state alone
+			}
+			if cur.T == nil && cur.P != nil && p2 == nil {
+				continue
+			}
+			if !ivEq(t2, cur.T) || !ivEq(p2, cur.P) {
+				changed = true
+			}
+			nw.T, nw.P = t2, p2
+		}
+		for _, u := range p.UB {
+			key := u.Key
+			if strings.HasPrefix(key, "p:") {
+				ok := false
+				for j, gp := range g.Params {
+					pre := "p:" + gp.Name()
+					if key == pre || strings.HasPrefix(key, pre+".") || strings.HasPrefix(key, pre+"[") {
+						base, _, _ := a.locKey(cc.Args[j])
+						if strings.HasPrefix(base, "v:") {
+							break
+						}
+						key, ok = base+key[len(pre):], true
+						break
+					}
+				}
+				if !ok {
+					continue
+				}
+			}
+			nw.UB = append(append([]Sym(nil), nw.UB...), Sym{u.Kind, key, u.K, u.T})
+			changed = true
+		}
+		if p.NZ && !cur.NZ {
+			nw.NZ, changed = true, true
+		}
+		if changed {
+			nw.UB = normUB(nw.UB)
+			a.assign(st, arg, nw, in.Block())
+		}
+	}
+}
+
+func ivEq(x, y *Iv) bool {
+	if x == nil || y == nil {
+		return x == y
+	}
+	eq := func(p, q *big.Int) bool {
+		if p == nil || q == nil {
+			return p == q
+		}
+		return p.Cmp(q) == 0
+	}
+	return eq(x.Lo, y.Lo) && eq(x.Hi, y.Hi)
+}
+
+func (a *fnAn) callInner(in ssa.Instruction, cc *ssa.CallCommon, st tstate, collect bool) {
 	if b, ok := cc.Value.(*ssa.Builtin); ok {
 		switch b.Name() {
 		case "len", "cap", "print", "println", "min", "max", "panic", "recover", "delete", "close":
@@ -2364,4 +2527,110 @@ func isLoopVar(v ssa.Value, b *ssa.BasicBlock) bool {
 		}
 	}
 	return false
+}
+
+// sliceLenParams: the parameters n of fn such that result ridx is, on every
+// return, a slice of length exactly n (make([]T, n), s[:n]). Syntactic, memoised.
+func (t *TLG) sliceLenParams(fn *ssa.Function, ridx int) []int {
+	type key struct {
+		fn *ssa.Function
+		i  int
+	}
+	if t.lenParams == nil {
+		t.lenParams = map[any][]int{}
+	}
+	k := key{fn, ridx}
+	if r, ok := t.lenParams[k]; ok {
+		return r
+	}
+	t.lenParams[k] = nil
+	sizes := t.sizesOf(fn)
+	paramIdx := func(v ssa.Value) int {
+		for {
+			switch x := v.(type) {
+			case *ssa.ChangeType:
+				v = x.X
+				continue
+			case *ssa.Convert:
+				from, to := typeRange(x.X.Type(), sizes), typeRange(x.Type(), sizes)
+				if from != nil && to != nil && from.subset(to) {
+					v = x.X
+					continue
+				}
+			}
+			break
+		}
+		for i, p := range fn.Params {
+			if ssa.Value(p) == v {
+				return i
+			}
+		}
+		return -1
+	}
+	var of func(v ssa.Value, d int) map[int]bool
+	of = func(v ssa.Value, d int) map[int]bool {
+		if d > 6 {
+			return nil
+		}
+		switch x := v.(type) {
+		case *ssa.ChangeType:
+			return of(x.X, d+1)
+		case *ssa.MakeSlice:
+			if i := paramIdx(x.Len); i >= 0 {
+				return map[int]bool{i: true}
+			}
+		case *ssa.Slice:
+			if x.Low == nil && x.High != nil {
+				if i := paramIdx(x.High); i >= 0 {
+					return map[int]bool{i: true}
+				}
+			}
+		case *ssa.Phi:
+			var res map[int]bool
+			for _, e := range x.Edges {
+				s := of(e, d+1)
+				if res == nil {
+					res = s
+				} else {
+					for i := range res {
+						if !s[i] {
+							delete(res, i)
+						}
+					}
+				}
+				if len(res) == 0 {
+					return nil
+				}
+			}
+			return res
+		}
+		return nil
+	}
+	var res map[int]bool
+	first := true
+	for _, b := range fn.Blocks {
+		for _, in := range b.Instrs {
+			r, ok := in.(*ssa.Return)
+			if !ok || ridx >= len(r.Results) {
+				continue
+			}
+			s := of(r.Results[ridx], 0)
+			if first {
+				res, first = s, false
+			} else {
+				for i := range res {
+					if !s[i] {
+						delete(res, i)
+					}
+				}
+			}
+		}
+	}
+	var out []int
+	for i := range res {
+		out = append(out, i)
+	}
+	sort.Ints(out)
+	t.lenParams[k] = out
+	return out
 }
